@@ -51,15 +51,27 @@ pub struct TableFn {
     pub table: Vec<i32>,
 }
 
+/// symbol class of a byte: the letters 'a'.. map to 0.., every other byte value to `byte % sigma`
+/// (so that sequences over the full byte range, including 0x00 and 0xFF, can be scored)
+pub fn sym_class(a: u8, sigma: usize) -> usize {
+    let l = a.wrapping_sub(b'a') as usize;
+    if l < sigma {
+        l
+    } else {
+        a as usize % sigma
+    }
+}
+
 impl MatchFunc for TableFn {
     fn score(&self, a: u8, b: u8) -> i32 {
-        self.table[(a - b'a') as usize * self.sigma + (b - b'a') as usize]
+        self.table[sym_class(a, self.sigma) * self.sigma + sym_class(b, self.sigma)]
     }
 }
 
 impl ScoreSpec {
     pub fn sub(&self, a: u8, b: u8) -> i32 {
-        self.table[(a - b'a') as usize * self.sigma as usize + (b - b'a') as usize]
+        let s = self.sigma as usize;
+        self.table[sym_class(a, s) * s + sym_class(b, s)]
     }
     pub fn clip_raw(&self, k: usize) -> i32 {
         self.clips[k].unwrap_or(MIN_SCORE)
